@@ -373,9 +373,19 @@ def cold_jobs():
     sx = ('sysex', {'data': (1, 2, 127)})
     no = ('note_on', {'channel': 9, 'note': 127, 'velocity': 1})
     pc = ('program_change', {'channel': 3, 'program': 99})
+    cc = ('control_change', {'channel': 2, 'control': 100, 'value': 101})
     others = [dec('from_bytes', *pw2), dec('from_bytes_b', *sp), dec('from_hex', *qf), dec('from_bytes', *sx),
-              dec('from_bytes', *no), enc(*pw2), enc(*sp), enc(*qf), enc(*sx), enc(*pc)]
-    firsts = [[dec('from_bytes', *pw)], [enc(*pw)], [dec('from_hex', *sp), enc(*qf)], [dec('from_bytes_b', *sx), enc(*no)]]
+              dec('from_bytes', *no), enc(*pw2), enc(*sp), enc(*qf), enc(*sx), enc(*pc), dec('from_bytes', *cc),
+              dec('from_bytes', *pc), enc(*cc)]
+    # same status bytes as in `others`, other data: two decodes/encodes of one status byte overlap
+    same = [dec('from_bytes', 'note_on', {'channel': 9, 'note': 5, 'velocity': 6}),
+            dec('from_bytes', 'control_change', {'channel': 2, 'control': 7, 'value': 8}),
+            dec('from_bytes', 'program_change', {'channel': 3, 'program': 1}),
+            enc('control_change', {'channel': 2, 'control': 9, 'value': 10}),
+            dec('from_bytes', 'pitchwheel', {'channel': 15, 'pitch': 8191}),
+            dec('from_bytes', 'sysex', {'data': (9, 8)})]
+    firsts = [[dec('from_bytes', *pw)], [enc(*pw)], [dec('from_hex', *sp), enc(*qf)], [dec('from_bytes_b', *sx), enc(*no)],
+              same]
     return [{'modules': COLD_MODULES, 'jobs': [f, others], 'k': 1} for f in firsts]
 
 
